@@ -78,27 +78,37 @@ theorem lexLe_tp : TotalPreorder lexLe := ⟨lexLe_total, lexLe_trans⟩
 def cmp3 {α : Type} (le : α → α → Bool) (l r : α) : Int :=
   if le l r && le r l then 0 else if !(le l r) then 1 else -1
 
+/-- the closure `c` of `Sorting(asc)`, over the three-way comparison it calls -/
+def lessOneC {α : Type} (cmp : α → α → Int) (asc : Bool) (v1 v2 : α) : Bool :=
+  if asc then
+    if cmp v1 v2 > 0 then false else true
+  else
+    if cmp v2 v1 > 0 then false else true
+
 /-- the closure `c` of `Sorting(asc)` -/
 def lessOne {α : Type} (le : α → α → Bool) (asc : Bool) (v1 v2 : α) : Bool :=
-  if asc then
-    if cmp3 le v1 v2 > 0 then false else true
-  else
-    if cmp3 le v2 v1 > 0 then false else true
+  lessOneC (cmp3 le) asc v1 v2
 
 /-- `CompareChild(child, ord, i1, i2)` for a child whose elements are compared by `cle`
     (which `cle` belongs to which child type: see `childLe…` below) -/
 def compareChild {β : Type} (cle : β → β → Bool) (child : Nat → β) (ord : Bool) (i1 i2 : Nat) : Int :=
   if ord then cmp3 cle (child i1) (child i2) else cmp3 cle (child i2) (child i1)
 
-/-- the closure `c` of `SortingAnyList(asc, child, childAsc)` on (key, value) pairs -/
-def lessTwo {α : Type} (le : α → α → Bool) (asc : Bool) (cc : Nat → Nat → Int)
+/-- the closure `c` of `SortingAnyList(asc, child, childAsc)` on (key, value) pairs, over the
+    three-way comparison it calls and `CompareChild` -/
+def lessTwoC {α : Type} (cmp : α → α → Int) (asc : Bool) (cc : Nat → Nat → Int)
     (k1 : Nat) (v1 : α) (k2 : Nat) (v2 : α) : Bool :=
-  let rt := if asc then cmp3 le v1 v2 else cmp3 le v2 v1
+  let rt := if asc then cmp v1 v2 else cmp v2 v1
   if rt ≠ 0 then
     if rt > 0 then false else true
   else
     let rt := cc k1 k2
     if rt > 0 then false else true
+
+/-- the closure `c` of `SortingAnyList(asc, child, childAsc)` -/
+def lessTwo {α : Type} (le : α → α → Bool) (asc : Bool) (cc : Nat → Nat → Int)
+    (k1 : Nat) (v1 : α) (k2 : Nat) (v2 : α) : Bool :=
+  lessTwoC (cmp3 le) asc cc k1 v1 k2 v2
 
 /-- `Less(i, j)` of the sortable built by `Sorting`, in terms of original indices -/
 def lessIdx1 {α : Type} (le : α → α → Bool) (asc : Bool) (vals : Nat → α) (i j : Nat) : Bool :=
@@ -131,7 +141,7 @@ theorem cmp3_zero {α : Type} (le : α → α → Bool) (l r : α) :
 
 theorem lessOne_eq {α : Type} (le : α → α → Bool) (asc : Bool) (a b : α) :
     lessOne le asc a b = dir le asc a b := by
-  unfold lessOne dir
+  unfold lessOne lessOneC dir
   cases asc <;> simp only [Bool.false_eq_true, if_false, if_true, cmp3_pos]
   · cases le b a <;> simp
   · cases le a b <;> simp
@@ -144,7 +154,7 @@ theorem lessTwo_eq {α β : Type} (le : α → α → Bool) (asc : Bool) (vals :
       ((dir le asc (vals i) (vals j) && !(dir le asc (vals j) (vals i))) ||
        (dir le asc (vals i) (vals j) && dir le asc (vals j) (vals i) &&
         dir cle childAsc (child i) (child j))) := by
-  unfold lessIdx2 lessTwo compareChild dir
+  unfold lessIdx2 lessTwo lessTwoC compareChild dir
   cases asc <;> cases childAsc <;>
     simp only [Bool.false_eq_true, if_false, if_true, ne_eq, cmp3_zero, cmp3_pos] <;>
     (try cases le (vals i) (vals j)) <;> (try cases le (vals j) (vals i)) <;>
@@ -256,6 +266,122 @@ theorem mergeSort_contract : SortContract (fun less xs => xs.mergeSort less) :=
    fun less xs h => List.pairwise_mergeSort h.trans
      (fun a b => by rcases h.total a b with h | h <;> simp [h]) xs⟩
 
+/-! ### Go's `sort.Sort` (go1.23 `pdqsort`): the part that is modelled
+
+    func Sort(data) { n := data.Len(); if n <= 1 { return }; pdqsort(data, 0, n, bits.Len(n)) }
+    func pdqsort(..) { …; if length <= 12 { insertionSort(data, a, b); return } … }
+    func insertionSort(data, a, b) {
+      for i := a + 1; i < b; i++ { for j := i; j > a && data.Less(j, j-1); j-- { data.Swap(j, j-1) } } }
+
+  Up to 12 elements `sort.Sort` *is* this insertion sort.  It is transcribed on lists (the array
+  prefix `data[a:i]` is kept reversed, so that the inner loop walks from its head) and proved to
+  order its input for every total preorder — reflexive `Less` included, which is what the closures
+  of this package hand to it.  Longer inputs go through partitioning / heap sort, which stay a
+  parameter with the residual assumption `BigContract`. -/
+
+/-- inner loop: `x` sits at position j; while `Less(j, j-1)` it is swapped one place to the left.
+    `rp` = the elements to its left, nearest first. Returns the new left part, nearest-first. -/
+def insLeft {α : Type} (less : α → α → Bool) (x : α) : List α → List α
+  | [] => [x]
+  | p :: ps => if less x p then p :: insLeft less x ps else x :: p :: ps
+
+/-- outer loop of `insertionSort` -/
+def goInsertionSort {α : Type} (less : α → α → Bool) (xs : List α) : List α :=
+  (xs.foldl (fun rp x => insLeft less x rp) []).reverse
+
+theorem insLeft_perm {α : Type} (less : α → α → Bool) (x : α) (rp : List α) :
+    (insLeft less x rp).Perm (x :: rp) := by
+  induction rp with
+  | nil => exact List.Perm.refl _
+  | cons p ps ih =>
+    simp only [insLeft]
+    split
+    · exact ((List.Perm.cons p ih).trans (List.Perm.swap x p ps))
+    · exact List.Perm.refl _
+
+theorem foldl_insLeft_perm {α : Type} (less : α → α → Bool) (xs rp : List α) :
+    (xs.foldl (fun rp x => insLeft less x rp) rp).Perm (xs.reverse ++ rp) := by
+  induction xs generalizing rp with
+  | nil => simp
+  | cons x xs ih =>
+    simp only [List.foldl_cons, List.reverse_cons, List.append_assoc, List.singleton_append]
+    exact (ih _).trans (List.Perm.append_left _ (insLeft_perm less x rp))
+
+theorem goInsertionSort_perm {α : Type} (less : α → α → Bool) (xs : List α) :
+    (goInsertionSort less xs).Perm xs := by
+  unfold goInsertionSort
+  have := foldl_insLeft_perm less xs []
+  simp only [List.append_nil] at this
+  exact (List.reverse_perm _).trans (this.trans (List.reverse_perm xs))
+
+/-- the reversed prefix stays sorted (read right to left) -/
+theorem insLeft_sorted {α : Type} {less : α → α → Bool} (h : TotalPreorder less) (x : α) (rp : List α)
+    (hs : rp.Pairwise (fun a b => less b a = true)) :
+    (insLeft less x rp).Pairwise (fun a b => less b a = true) := by
+  induction rp with
+  | nil => simp [insLeft]
+  | cons p ps ih =>
+    rw [List.pairwise_cons] at hs
+    simp only [insLeft]
+    split
+    · rename_i hxp
+      refine List.pairwise_cons.mpr ⟨?_, ih hs.2⟩
+      intro q hq
+      have hq' := (insLeft_perm less x ps).mem_iff.mp hq
+      rcases List.mem_cons.mp hq' with e | e
+      · subst e; exact hxp
+      · exact hs.1 q e
+    · rename_i hxp
+      have hpx : less p x = true := by
+        rcases h.total x p with t | t
+        · exact absurd t hxp
+        · exact t
+      refine List.pairwise_cons.mpr ⟨?_, List.pairwise_cons.mpr hs⟩
+      intro q hq
+      rcases List.mem_cons.mp hq with e | e
+      · subst e; exact hpx
+      · exact h.trans _ _ _ (hs.1 q e) hpx
+
+theorem goInsertionSort_sorted {α : Type} {less : α → α → Bool} (h : TotalPreorder less) (xs : List α) :
+    (goInsertionSort less xs).Pairwise (fun a b => less a b = true) := by
+  unfold goInsertionSort
+  rw [List.pairwise_reverse]
+  have : ∀ (ys rp : List α), rp.Pairwise (fun a b => less b a = true) →
+      (ys.foldl (fun rp x => insLeft less x rp) rp).Pairwise (fun a b => less b a = true) := by
+    intro ys
+    induction ys with
+    | nil => intro rp hrp; exact hrp
+    | cons y ys ih => intro rp hrp; exact ih _ (insLeft_sorted h y rp hrp)
+  exact this xs [] List.Pairwise.nil
+
+/-- `sort.Sort` with the long-input path (`big`) left open -/
+def goSort (big : SortFn) : SortFn :=
+  fun less xs => if xs.length ≤ 12 then goInsertionSort less xs else big less xs
+
+/-- **Residual assumption** about `sort.Sort`, precisely: for inputs LONGER THAN 12 ELEMENTS
+    (choosePivot / partition / partitionEqual / partialInsertionSort / breakPatterns / heapSort) the
+    result is a permutation and, when `Less` is a total preorder (reflexive allowed), sorted.
+    Exercised by tie B on every run (duplicate-heavy inputs up to 5000 elements), never proved. -/
+structure BigContract (big : SortFn) : Prop where
+  perm : ∀ less xs, 12 < xs.length → (big less xs).Perm xs
+  sorted : ∀ less xs, 12 < xs.length → TotalPreorder less →
+    (big less xs).Pairwise (fun a b => less a b = true)
+
+/-- up to 12 elements nothing is assumed: the contract of `sort.Sort` follows from the model of
+    `insertionSort`; beyond, from `BigContract` -/
+theorem goSort_contract (big : SortFn) (hb : BigContract big) : SortContract (goSort big) := by
+  constructor
+  · intro less xs
+    unfold goSort
+    split
+    · exact goInsertionSort_perm less xs
+    · exact hb.perm less xs (by omega)
+  · intro less xs h
+    unfold goSort
+    split
+    · exact goInsertionSort_sorted h xs
+    · exact hb.sorted less xs (by omega) h
+
 /-- `Sorting(asc)` -/
 def sorting {α : Type} (sort : SortFn) (le : α → α → Bool) (asc : Bool) (vals : Nat → α) (n : Nat) :
     List Nat :=
@@ -265,6 +391,23 @@ def sorting {α : Type} (sort : SortFn) (le : α → α → Bool) (asc : Bool) (
 def sortingAnyList {α β : Type} (sort : SortFn) (le : α → α → Bool) (asc : Bool) (vals : Nat → α)
     (cle : β → β → Bool) (child : Nat → β) (childAsc : Bool) (n : Nat) : List Nat :=
   sort (lessIdx2 le asc vals cle child childAsc) (List.range n)
+
+theorem sorting_ok {α : Type} (sort : SortFn) (hs : SortContract sort) {le : α → α → Bool}
+    (h : TotalPreorder le) (asc : Bool) (vals : Nat → α) (n : Nat) :
+    (sorting sort le asc vals n).Perm (List.range n) ∧
+    ((sorting sort le asc vals n).map vals).Pairwise (fun a b => dir le asc a b = true) := by
+  refine ⟨hs.perm _ _, ?_⟩
+  rw [List.pairwise_map]
+  exact (hs.sorted _ _ (lessIdx1_tp h asc vals)).imp (fun h => by simpa [lessIdx1, lessOne_eq] using h)
+
+theorem sortingAnyList_ok {α β : Type} (sort : SortFn) (hs : SortContract sort)
+    {le : α → α → Bool} {cle : β → β → Bool} (h : TotalPreorder le) (hc : TotalPreorder cle)
+    (asc childAsc : Bool) (vals : Nat → α) (child : Nat → β) (n : Nat) :
+    (sortingAnyList sort le asc vals cle child childAsc n).Perm (List.range n) ∧
+    (sortingAnyList sort le asc vals cle child childAsc n).Pairwise
+      (Ordered2 le asc vals cle child childAsc) :=
+  ⟨hs.perm _ _, (hs.sorted _ _ (lessIdx2_tp h hc asc childAsc vals child)).imp
+    (fun h => (lessIdx2_iff_ordered le asc vals cle child childAsc _ _).mp h)⟩
 
 /-! ### D43: the child comparison of /repo goes through float64 -/
 
